@@ -16,7 +16,7 @@ import (
 // cfgseq: sequences of PUT /config/nsqlookupd_tcp_addresses with lists of 0..4 addresses (growing, shrinking by one or by
 // several, reordered, repeated, swapped), interleaved with log_level changes.  Every request is answered 200, a GET
 // returns what was put, and the daemon goes on answering (C10: "no request can take the daemon down"; the option is
-// applied by the lookup loop, outside the HTTP handlers).  The addresses are listeners that accept and stay silent.
+// applied by the lookup loop, outside the HTTP handlers).  The addresses are listeners that hang up at once.
 func init() { subcmds["cfgseq"] = cfgseqCmd }
 
 func cfgseqCmd(args []string) int {
@@ -50,7 +50,8 @@ func cfgseqCmd(args []string) int {
 				if err != nil {
 					return
 				}
-				go func() { io.Copy(io.Discard, c); c.Close() }()
+				c.Close() // refused at once: the lookup loop is not held up and sees every configuration
+
 			}
 		}()
 		addrs = append(addrs, ln.Addr().String())
@@ -123,7 +124,7 @@ func cfgseqCmd(args []string) int {
 			put("/config/log_level", []byte([]string{"debug", "info", "warn"}[rng.Intn(3)]))
 			n++
 		}
-		time.Sleep(time.Duration(rng.Intn(8)) * time.Millisecond)
+		time.Sleep(time.Duration(15+rng.Intn(30)) * time.Millisecond) // the lookup loop applies it
 		resp, err := hc.Get("http://" + d.HTTPAddr + "/config/nsqlookupd_tcp_addresses")
 		n++
 		if err != nil {
